@@ -1194,8 +1194,9 @@ func (g *c18gen) stress(rounds, workers, opsPer int) {
 		}
 		var rest types.Transactions
 		rest = append(rest, res...)
-		pool.DelTxs(rest)
-		if !pool.IsEmpty() {
+		if out := Safe(func() string { pool.DelTxs(rest); return "ok" }); out != "ok" {
+			report("c18/concurrent-panic", fmt.Sprintf("after the run, DelTxs of the %d txs the pool handed out: %s", len(rest), out))
+		} else if !pool.IsEmpty() {
 			slots, index, _ := pool.VerifState()
 			report("c18/concurrent-not-empty", fmt.Sprintf("after deleting everything handed out the pool is not empty: %d slots, %d index entries", len(slots), len(index)))
 		}
